@@ -143,6 +143,12 @@ func c09SessionProperty(t *rapid.T) {
 			cfg.settings[config.DataDictionary] = spec + dictForBegin[cfg.begin] + ".xml"
 		}
 	}
+	// the validation switches, as a user may set them (a key left out keeps its default)
+	for _, k := range []string{config.ValidateFieldsOutOfOrder, config.ValidateFieldsHaveValues, config.RejectInvalidMessage, config.AllowUnknownMessageFields, config.CheckUserDefinedFields} {
+		if v := rapid.SampledFrom([]string{"", "", "", "Y", "N"}).Draw(t, k); v != "" {
+			cfg.settings[k] = v
+		}
+	}
 	useSchedule := rapid.IntRange(0, 4).Draw(t, "schedule") == 0
 	if useSchedule {
 		now := time.Now().UTC()
